@@ -11,6 +11,7 @@ import BridgeVerif.Driver.Json
 import BridgeVerif.Driver.Pbn
 import BridgeVerif.Driver.Admission
 import BridgeVerif.Driver.PyCore
+import BridgeVerif.Driver.Regex
 /-! The line-protocol driver: one op per line in, one canonical line out. -/
 namespace Bridge.Driver
 
@@ -69,6 +70,8 @@ def step (s : DState) (line : String) : DState × String :=
       (s, (msgOps t).getD "bad-op")
     else if op.startsWith "G." then
       (s, ((admissionOps t).orElse fun _ => admissionLoopOps t).getD "bad-op")
+    else if op = "R.case" then
+      (s, Bridge.Driver.Rx.answer (" ".intercalate (t.drop 1)))
     else if op.startsWith "Y." then
       match pyOps s.py t with
       | some (rs, o) => ({ s with py := rs }, o)
